@@ -599,6 +599,8 @@ def Op.OK : Op → Prop
   | .addCached r _ => NameOK r.name
   | _ => True
 
+instance (op : Op) : Decidable op.OK := by cases op <;> unfold Op.OK <;> infer_instance
+
 theorem StoreOK.empty : StoreOK Store.empty := by simp [StoreOK, Store.empty]
 
 theorem StoreOK.getD {s : Store} (h : StoreOK s) (k : Key) :
